@@ -12,8 +12,10 @@
     Oracles (Section variables, supplied per case by the correspondence run from what the real
     code returned): [parse_o] = parse_operation_document followed by resolve_operation_extensions,
     reduced to what the loader uses of it (panic / error text / the import path strings);
-    [emit_o] = resolve_operation_imports + print_js as a function of the task's root file name
-    and file map.  Path resolution and [PathBuf] equality are NOT oracles: they are C20's model
+    [emit_o] = what emit_js computes from the task's root file name and file map; the generic
+    machine ([step]) takes it as one function, [staged_emit] at the end of this file is the form
+    it has in the code now (resolve imports / undefined spread / print) and is the one the
+    correspondence run evaluates.  Path resolution and [PathBuf] equality are NOT oracles: they are C20's model
     ([resolve_s], [components]).
 
     A panic inside an [extern "C"] function aborts the process: response [Trap], no next state.
@@ -256,3 +258,35 @@ Section Oracles.
         end
     end.
 End Oracles.
+
+(** * The emit step in stages (loader.rs [emit_js], after /repo commit 539df4b)
+
+    [emit_js] = [resolve_operation_imports] on the root document with the task's file map as
+    resolver; on [Err] the error text; on [Ok doc]: if some fragment spread of [doc] (definitions in
+    order, selection sets depth-first) names a fragment that [doc] does not define, the error
+    "Fragment '<name>' is not defined"; otherwise [print_js doc].  Nothing in it panics any more.
+
+    The resolution is an oracle ([resolve_o root files]); what it returns of the resolved
+    document is what the loader itself looks at — the names of its fragment definitions and of
+    its fragment spreads in traversal order — plus the module text [print_js] gives for it. *)
+Inductive rresult :=
+| RErr (msg : str)                                   (* resolve_operation_imports failed *)
+| ROk (defs spreads : list str) (js : str).
+
+Definition first_undefined (defs spreads : list str) : option str :=
+  find (fun n => negb (existsb (str_eqb n) defs)) spreads.
+
+Definition undefined_msg (n : str) : str := s "Fragment '" ++ n ++ s "' is not defined".
+
+Definition emit_of (r : rresult) : eresult :=
+  match r with
+  | RErr m => EErr m
+  | ROk defs spreads js =>
+      match first_undefined defs spreads with
+      | Some n => EErr (undefined_msg n)
+      | None => EOk js
+      end
+  end.
+
+Definition staged_emit (resolve_o : str -> list (str * str) -> rresult) : str -> list (str * str) -> eresult :=
+  fun root fs => emit_of (resolve_o root fs).
